@@ -306,9 +306,10 @@ def encode(x):
             return {"k": "q", "n": x.numerator, "d": x.denominator}
         return {"k": "big"}
     try:
-        fx = Fraction(x)          # a derived float that is exactly a small rational (tainted cases: 0*x - 1 = -1.0)
-        if abs(fx.numerator) <= 30000 and fx.denominator <= 30000:
-            return {"k": "q", "n": fx.numerator, "d": fx.denominator}
+        fx = Fraction(x)          # a derived float that is (the double nearest to) a small rational: 0*x - 1 = -1.0, 1/3 = 0.333...
+        cand = fx.limit_denominator(30000)
+        if abs(cand.numerator) <= 30000 and abs(fx - cand) <= abs(fx) * Fraction(1, 10 ** 15):
+            return {"k": "q", "n": cand.numerator, "d": cand.denominator}
     except (OverflowError, ValueError):
         pass
     return {"k": "fl"}
